@@ -108,9 +108,12 @@ func specPlain4(p *packets.FrameParser) bool {
 //@ modifies ghost isOpen, ghost closeN
 
 //@ func newTCPDriver
-//@ safety C10
+//@ safety C10 C11
 //@ requires[pre.nonnil]  config != nil
 //@ ensures[drv.new]  ret0 != nil && fresh(ret0) && ret0.sink == sink && ret0.source == source && ret0.config == config
+// the identifier window is reserved for every TTL the run can use: probes carry base+ttl with ttl up to MaxTTL, so the block
+// must be MaxTTL long whatever the first TTL is (C11: identifier ranges of concurrent runs never overlap)
+//@ ensures[C11.tcp.window]  !config.ParisTracerouteMode ==> ncalls(AllocPacketID) == old(ncalls(AllocPacketID)) + 1 && lastarg(AllocPacketID, maxTTL) == config.MaxTTL && ret0.basePacketID == lastres(AllocPacketID, 0)
 //@ modifies global packets.curPacketID
 
 //@ func (*tcpDriver).Close
